@@ -744,11 +744,13 @@ func runC16(c *run.Ctx, s *kit.Summary) {
 			kinds := make([]string, m)
 			for i := range ins {
 				var in []byte
-				switch k := r.Pick(10); {
+				switch k := r.Pick(11); {
 				case k < 2:
 					in, kinds[i] = gen.RandomBytes(r, 200), "random"
 				case k < 4:
 					in, kinds[i] = e.valid(r), "valid"
+				case k == 10:
+					in, kinds[i] = []byte(gen.NumericShapes(r, string(e.valid(r)))), "numeric"
 				default:
 					in, kinds[i] = gen.MutateDoc(r, e.valid(r), e.valid(r)), "mutated"
 				}
@@ -768,11 +770,19 @@ func runC16(c *run.Ctx, s *kit.Summary) {
 		n := c.N(6000, 300000)
 		vals := append([]string{""}, fe.fixed...)
 		one := func() string {
-			switch k := r.Pick(10); {
+			switch k := r.Pick(12); {
 			case k < 2:
 				return string(gen.RandomBytes(r, 60))
 			case k < 4:
 				return fe.valid(r)
+			case k < 7:
+				// numbers in unusual shapes: long digit runs around a decimal point, leading zeros,
+				// repeated digits, exponents
+				v := gen.NumericShapes(r, fe.valid(r))
+				if r.Chance(0.2) {
+					v = gen.NumericShapes(r, v)
+				}
+				return v
 			}
 			return string(gen.MutateDoc(r, []byte(fe.valid(r)), []byte(fe.valid(r))))
 		}
